@@ -149,6 +149,11 @@ package resolver
 //@   # of nested lookups instead of running into the generic nesting ceiling
 //@   assert at call (*middleware/resolver.Resolver).lookupNSAddrV4#1: arg1 == lastret("(*middleware/resolver.Resolver).checkLoop") && arg2 == name
 //@   assert at call (*middleware/resolver.Resolver).checkLoop#1: arg2 == name && arg3 == dns.TypeA
+//@   # C13 / C11: a nameserver-address lookup that was SHED for lack of in-flight capacity ends this request with that
+//@   # (request-local) error; it is not skipped like an unreachable host, which would leave the delegation without
+//@   # servers and have the delegated zone recorded as failed for every other client
+//@   assert at call errors.Is#3: arg0 == lastret("(*middleware/resolver.Resolver).lookupNSAddrV4", 1) && arg1 == middleware.ErrResolutionShed
+//@   possible at return#1: lastret("errors.Is#3")
 //@
 //@ func (*Resolver).lookupV6Nss
 //@   abstract
